@@ -67,7 +67,14 @@ def gen_case(rng):
         deltas = [[rng.uniform(-2, 2) for _ in range(3)] for _ in range(3)]
     values = [_value(rng) for _ in range(n[0] * n[1] * n[2])]
     per_line = rng.choice([3, 3, 1, 2, 4, 5, 6])
-    fmt = rng.choice(["%e", "%.6e", "%.12e", "%r", "%E", "%+.6e"])
+    fmt = rng.choice(["%e", "%.6e", "%.12e", "%r", "%E", "%+.6e", "%g", "%r", "%d"])
+    if fmt == "%d":
+        # mask / count maps: integer tokens without a decimal point
+        values = [float(rng.choice([0, 0, 1, 1, 2, 12, -3, 100000])) for _ in values]
+    elif fmt in ("%g", "%r") and rng.random() < 0.6:
+        # round values whose shortest text has no decimal point (1e-05, 3e+16, 7)
+        values = [float(rng.choice([-1, 1]) * rng.randint(1, 9) * 10.0 ** rng.choice([-12, -5, 0, 0, 16, 22]))
+                  if rng.random() < 0.5 else v for v in values]
     natoms = rng.choice([0, 1, 3, 20, 300])
     return {"n": n, "origin": origin, "deltas": deltas, "values": values, "per_line": per_line, "fmt": fmt,
             "natoms": natoms, "shape_cls": shape_cls, "dtype": rng.choice(["double", "double", "float"])}
@@ -84,7 +91,8 @@ def dx_text(c, rng):
     # the declared element type is double in APBS output and float in maps written from float32 data; the values are
     # text either way
     lines.append(f"object 3 class array type {c.get('dtype', 'double')} rank 0 items {len(c['values'])} data follows")
-    toks = [(c["fmt"] % v) if c["fmt"] != "%r" else repr(v) for v in c["values"]]
+    toks = [repr(v) if c["fmt"] == "%r" else ("%d" % int(v)) if c["fmt"] == "%d" else (c["fmt"] % v)
+            for v in c["values"]]
     for i in range(0, len(toks), c["per_line"]):
         sep = rng.choice([" ", " ", " ", "  ", "\t"])
         lines.append(sep.join(toks[i:i + c["per_line"]]) + (" " if rng.random() < 0.3 else ""))
